@@ -322,7 +322,17 @@ class PythonTemplater(RawTemplater):
                         )
                     )
 
-                return raw_str_with_dot_notation_hack.format_map(fallback_context)
+                try:
+                    return raw_str_with_dot_notation_hack.format_map(fallback_context)
+                except (AttributeError, IndexError, TypeError, ValueError) as err:
+                    # The fallback only stands in for *missing* variables. A
+                    # field which an existing value cannot satisfy, or a bad
+                    # conversion / format spec, is still a templating error.
+                    raise SQLTemplaterError(
+                        "Failure in Python templating: {}. Have you configured "
+                        "your variables? https://docs.sqlfluff.com/en/stable/"
+                        "perma/variables.html".format(err)
+                    )
 
             try:
                 rendered_str = raw_str_with_dot_notation_hack.format(**live_context)
